@@ -351,9 +351,23 @@ func (c *Ctx) callByContract(st *State, in ssa.Instruction, sp *FuncSpec, key st
 			c.ghostAssign(env2, g)
 		}
 	}
+	internalGhost := map[string]bool{}
+	for _, g := range sp.Ghost {
+		if g.At != "exit" {
+			internalGhost[g.Name] = true
+		}
+	}
+	for _, g := range sp.Ghost {
+		if g.At == "exit" {
+			delete(internalGhost, g.Name)
+		}
+	}
 	for _, en := range sp.Ensures {
 		if mentionsCallLog(en.Expr) {
 			continue // a clause about the callee's own ghost call log says nothing in the caller's state
+		}
+		if len(internalGhost) > 0 && mentionsIdent(en.Expr, internalGhost) {
+			continue // a clause over ghost variables internal to the callee's proof (not exported at exit)
 		}
 		if t, ok := c.tryEvalBool(env2, en.Expr); ok {
 			st.assume(t)
@@ -850,6 +864,7 @@ type RangeIter struct {
 	Pos   int
 	MapT  *types.Map
 	Order []int
+	Abs   *MapObj // abstract (symbolic) map: every Next yields an arbitrary entry (only inside cut loops)
 }
 
 func (c *Ctx) rangeInit(st *State, x *ssa.Range) Value {
@@ -863,7 +878,11 @@ func (c *Ctx) rangeInit(st *State, x *ssa.Range) Value {
 	case MapV:
 		mo := c.mapObj(st, b)
 		if mo.Abstract {
-			unsupported("range over abstract map (needs a contract-level treatment)")
+			if len(mo.Entries) > 0 {
+				unsupported("range over an abstract map with concrete updates")
+			}
+			c.Assumed["range over a symbolic map: every iteration sees an arbitrary (key, value) pair - an over-approximation of the real iteration; termination of such loops is not proved"] = true
+			return &RangeIter{Abs: mo, MapT: under(x.X.Type()).(*types.Map)}
 		}
 		c.Assumed["range over a concrete map evaluated in insertion order and in reverse insertion order (other orders not evaluated)"] = true
 		if c.MapReverse {
@@ -893,6 +912,20 @@ func (c *Ctx) rangeNext(st *State, x *ssa.Next) ([]*State, bool) {
 		fr.Env[x] = &TupleV{V: []Value{True(), c.idx(int64(it.Pos)), c.intC(int64(r), types.Typ[types.Int32])}}
 		// the iterator value is immutable in SSA; we rebind the iterator operand
 		fr.Env[x.Iter] = nit
+		return nil, false
+	}
+	if it.Abs != nil {
+		ok := Fresh("range.ok", BoolSort)
+		k := c.symbolic(st, it.MapT.Key(), "range.key")
+		v := c.symbolic(st, it.MapT.Elem(), "range.val")
+		if ks, isStr := k.(StrV); isStr {
+			// the map-level fact `keysNonEmpty(m)` (a precondition where the loop needs it) speaks about every key
+			st.assume(Implies(And(ok, App("mapKeysNonEmpty."+it.Abs.Tag, BoolSort)), Cmp(">", c.strLen(st, ks), c.idx(0), true)))
+		}
+		if pv, isPtr := v.(PtrV); isPtr && pv.Sym != nil {
+			st.assume(Implies(And(ok, App("mapValsNonNil."+it.Abs.Tag, BoolSort)), Not(Eq(pv.Sym, IntC(0)))))
+		}
+		fr.Env[x] = &TupleV{V: []Value{ok, k, v}}
 		return nil, false
 	}
 	if it.Map != nil {
@@ -1071,6 +1104,21 @@ func mentionsCallLog(e *SExpr) bool {
 	}
 	for _, a := range e.Args {
 		if mentionsCallLog(a) {
+			return true
+		}
+	}
+	return false
+}
+
+func mentionsIdent(e *SExpr, names map[string]bool) bool {
+	if e == nil {
+		return false
+	}
+	if e.Kind == "ident" && names[e.Name] {
+		return true
+	}
+	for _, a := range e.Args {
+		if mentionsIdent(a, names) {
 			return true
 		}
 	}
